@@ -2,6 +2,7 @@
 This file contains the AquacropModel class that runs the simulation.
 """
 import time
+import copy
 import datetime
 import os
 import logging
@@ -200,9 +201,16 @@ class AquaCropModel:
         # get _weather data
         self.weather_df = read_weather_inputs(self._clock_struct, self.weather_df)
 
+        # initialisation derives values and stores them on the soil, crop and CO2 objects (profile deepening,
+        # crop calendar, current CO2 concentration): work on private copies so that the objects the user
+        # passed in keep their meaning and can be used again
+        soil = copy.deepcopy(self.soil)
+        crop = copy.deepcopy(self.crop)
+        co2_concentration = copy.deepcopy(self.co2_concentration)
+
         # read model params
         self._clock_struct, self._param_struct = read_model_parameters(
-            self._clock_struct, self.soil, self.crop, self.weather_df
+            self._clock_struct, soil, crop, self.weather_df
         )
 
         # read irrigation management
@@ -221,14 +229,14 @@ class AquaCropModel:
         )
 
         # Compute additional variables
-        self._param_struct.CO2 = self.co2_concentration
+        self._param_struct.CO2 = co2_concentration
         self._param_struct = compute_variables(
             self._param_struct, self.weather_df, self._clock_struct
         )
 
         # read, calculate inital conditions
         self._param_struct, self._init_cond = read_model_initial_conditions(
-            self._param_struct, self._clock_struct, self.initial_water_content, self.crop
+            self._param_struct, self._clock_struct, self.initial_water_content, crop
         )
 
         self._param_struct = create_soil_profile(self._param_struct)
